@@ -3281,6 +3281,10 @@ CaseVexRvm_R:
       const Operand_& o3 = op_ext[EmitterUtils::kOp3];
       const uint32_t isign4 = isign3 + (uint32_t(o3.op_type()) << 9);
 
+      // The register travels in imm8[7:4]: only ids 0..15 fit (xmm16 would silently become xmm0).
+      if (ASMJIT_UNLIKELY(o3.is_reg() && o3.id() > 15u)) {
+        goto InvalidPhysId;
+      }
       imm_value = o3.id() << 4;
       imm_size = 1;
 
@@ -3364,6 +3368,11 @@ VexRvmi:
 
     case InstDB::kEncodingVexRmv_VM:
       if (isign3 == ENC_OPS3(Reg, Mem, Reg)) {
+        // The three-operand gather (vector mask) exists VEX-encoded only: registers 16..31 cannot be named.
+        if (ASMJIT_UNLIKELY((o0.id() | o2.id() | (o1.as<Mem>().has_index_reg() ? o1.as<Mem>().index_id() : 0u)) > 15u)) {
+          goto InvalidPhysId;
+        }
+
         opcode |= Support::max(opcode_l_by_vmem(o1), opcode_l_by_size(o0.x86_rm_size() | o2.x86_rm_size()));
 
         op_reg = pack_reg_and_vvvvv(o0.id(), o2.id());
@@ -3749,6 +3758,10 @@ CaseVexVmi_AfterImm:
         op_reg = pack_reg_and_vvvvv(o0.id(), o1.id());
         rb_reg = o2.id();
 
+        // The register travels in imm8[7:4]: only ids 0..15 fit (xmm16 would silently become xmm0).
+        if (ASMJIT_UNLIKELY(o3.is_reg() && o3.id() > 15u)) {
+          goto InvalidPhysId;
+        }
         imm_value = o3.id() << 4;
         imm_size = 1;
         goto EmitVexEvexR;
@@ -3759,6 +3772,10 @@ CaseVexVmi_AfterImm:
         op_reg = pack_reg_and_vvvvv(o0.id(), o1.id());
         rm_rel = &o3;
 
+        // The register travels in imm8[7:4]: only ids 0..15 fit (xmm16 would silently become xmm0).
+        if (ASMJIT_UNLIKELY(o2.is_reg() && o2.id() > 15u)) {
+          goto InvalidPhysId;
+        }
         imm_value = o2.id() << 4;
         imm_size = 1;
         goto EmitVexEvexM;
@@ -3768,6 +3785,10 @@ CaseVexVmi_AfterImm:
         op_reg = pack_reg_and_vvvvv(o0.id(), o1.id());
         rm_rel = &o2;
 
+        // The register travels in imm8[7:4]: only ids 0..15 fit (xmm16 would silently become xmm0).
+        if (ASMJIT_UNLIKELY(o3.is_reg() && o3.id() > 15u)) {
+          goto InvalidPhysId;
+        }
         imm_value = o3.id() << 4;
         imm_size = 1;
         goto EmitVexEvexM;
@@ -3792,6 +3813,10 @@ CaseVexVmi_AfterImm:
         op_reg = pack_reg_and_vvvvv(o0.id(), o1.id());
         rb_reg = o2.id();
 
+        // The register travels in imm8[7:4]: only ids 0..15 fit (xmm16 would silently become xmm0).
+        if (ASMJIT_UNLIKELY(o3.is_reg() && o3.id() > 15u)) {
+          goto InvalidPhysId;
+        }
         imm_value |= o3.id() << 4;
         goto EmitVexEvexR;
       }
@@ -3801,6 +3826,10 @@ CaseVexVmi_AfterImm:
         op_reg = pack_reg_and_vvvvv(o0.id(), o1.id());
         rm_rel = &o3;
 
+        // The register travels in imm8[7:4]: only ids 0..15 fit (xmm16 would silently become xmm0).
+        if (ASMJIT_UNLIKELY(o2.is_reg() && o2.id() > 15u)) {
+          goto InvalidPhysId;
+        }
         imm_value |= o2.id() << 4;
         goto EmitVexEvexM;
       }
@@ -3809,6 +3838,10 @@ CaseVexVmi_AfterImm:
         op_reg = pack_reg_and_vvvvv(o0.id(), o1.id());
         rm_rel = &o2;
 
+        // The register travels in imm8[7:4]: only ids 0..15 fit (xmm16 would silently become xmm0).
+        if (ASMJIT_UNLIKELY(o3.is_reg() && o3.id() > 15u)) {
+          goto InvalidPhysId;
+        }
         imm_value |= o3.id() << 4;
         goto EmitVexEvexM;
       }
@@ -3854,6 +3887,10 @@ CaseVexVmi_AfterImm:
           opcode.add_w();
           rb_reg = o3.id();
 
+          // The register travels in imm8[7:4]: only ids 0..15 fit (xmm16 would silently become xmm0).
+          if (ASMJIT_UNLIKELY(o2.is_reg() && o2.id() > 15u)) {
+            goto InvalidPhysId;
+          }
           imm_value = o2.id() << 4;
           imm_size = 1;
           goto EmitVexEvexR;
@@ -3862,6 +3899,10 @@ CaseVexVmi_AfterImm:
           // MOD/MR - Alternative encoding.
           rb_reg = o2.id();
 
+          // The register travels in imm8[7:4]: only ids 0..15 fit (xmm16 would silently become xmm0).
+          if (ASMJIT_UNLIKELY(o3.is_reg() && o3.id() > 15u)) {
+            goto InvalidPhysId;
+          }
           imm_value = o3.id() << 4;
           imm_size = 1;
           goto EmitVexEvexR;
@@ -3873,6 +3914,10 @@ CaseVexVmi_AfterImm:
         op_reg = pack_reg_and_vvvvv(o0.id(), o1.id());
         rm_rel = &o3;
 
+        // The register travels in imm8[7:4]: only ids 0..15 fit (xmm16 would silently become xmm0).
+        if (ASMJIT_UNLIKELY(o2.is_reg() && o2.id() > 15u)) {
+          goto InvalidPhysId;
+        }
         imm_value = o2.id() << 4;
         imm_size = 1;
         goto EmitVexEvexM;
@@ -3882,6 +3927,10 @@ CaseVexVmi_AfterImm:
         op_reg = pack_reg_and_vvvvv(o0.id(), o1.id());
         rm_rel = &o2;
 
+        // The register travels in imm8[7:4]: only ids 0..15 fit (xmm16 would silently become xmm0).
+        if (ASMJIT_UNLIKELY(o3.is_reg() && o3.id() > 15u)) {
+          goto InvalidPhysId;
+        }
         imm_value = o3.id() << 4;
         imm_size = 1;
         goto EmitVexEvexM;
@@ -4659,6 +4708,13 @@ EmitVexEvexR:
 
     // Check if EVEX is required by checking bits in `x` :     [........|xx.x.xxx|x......x|.x.x....].
     if (x & kEvexBits) {
+      // What only an EVEX prefix can express (registers 16..31, 512-bit vectors, {k}, {z}, broadcast) cannot be encoded
+      // by an instruction that has no EVEX form - emitting its VEX opcode under an EVEX prefix is a different or an
+      // undefined instruction.
+      if (ASMJIT_UNLIKELY(!common_info->has_flag(InstDB::InstFlags::kEvex))) {
+        goto InvalidInstruction;
+      }
+
       uint32_t y = ((x << 4) & 0x00080000u) |               // [........|...bV...|........|........].
                    ((x >> 4) & 0x00000010u) ;               // [........|...bV...|........|...R....].
       x  = (x & 0x00FF78EFu) | y;                           // [........|zLLbVaaa|0vvvv000|RBBRmmmm].
@@ -4773,6 +4829,13 @@ EmitVexEvexM:
 
     // Check if EVEX is required by checking bits in `x` :     [@.......|xx.xxxxx|x......x|...x....].
     if (x & kEvexBits) {
+      // What only an EVEX prefix can express (registers 16..31, 512-bit vectors, {k}, {z}, broadcast) cannot be encoded
+      // by an instruction that has no EVEX form - emitting its VEX opcode under an EVEX prefix is a different or an
+      // undefined instruction.
+      if (ASMJIT_UNLIKELY(!common_info->has_flag(InstDB::InstFlags::kEvex))) {
+        goto InvalidInstruction;
+      }
+
       uint32_t y = ((x << 4) & 0x00080000u) |               // [@.......|....V...|........|........].
                    ((x >> 4) & 0x00000010u) ;               // [@.......|....V...|........|...R....].
       x  = (x & 0x00FF78EFu) | y;                           // [........|zLLbVaaa|0vvvv000|RXBRmmmm].
